@@ -2106,6 +2106,29 @@ READ_SITE_SEQ_NATIVE_TEST = r"""
             }
         }
 
+        // odd and even targets at the boundary: t == m is exact, t == m - 1 (one chromosome short) and
+        // t == m - 2 are insufficient, t > m is projected
+        {
+            use crate::spectrum::project::PartialProjection;
+            let one_pop = || sample::Map::from_iter([("a", Some("p")), ("b", Some("p")), ("c", Some("p"))].map(|(s, p)| (s.to_string(), p.map(str::to_string))));
+            let miss = genotype::Result::Skipped(genotype::Skipped::Missing);
+            let called = |n: usize| -> Vec<genotype::Result> { (0..3).map(|i| if i < n { genotype::Result::Genotype(One) } else { miss }).collect() };
+            for target in 1usize..=6 {
+                for n_called in 0usize..=3 {
+                    let t = 2 * n_called;
+                    let mut r = Reader::new_unchecked(Box::new(mk(vec![("c1".to_string(), 1, called(n_called))])), one_pop(), Some(PartialProjection::new(crate::spectrum::Count::from(vec![target]))));
+                    let kind = match r.read_site() {
+                        ReadStatus::Read(Site::Standard(_)) => "exact",
+                        ReadStatus::Read(Site::Projected(_)) => "projected",
+                        ReadStatus::Read(Site::InsufficientData) => "insufficient",
+                        _ => "other",
+                    };
+                    let want = if t == target { "exact" } else if t > target { "projected" } else { "insufficient" };
+                    assert_eq!(kind, want, "{t} called chromosomes against a target of {target}");
+                }
+            }
+        }
+
         // an error of the genotype reader is passed on as that error, at any position in the stream
         struct KvFail {
             samples: Vec<Sample>,
@@ -3222,7 +3245,7 @@ def run_task(name, scratch, tier, seed, logdir, prop=None):
     except Exception as e:  # the translator gave up on the changed code: never a pass; a native test may still decide
         import traceback
         res = [dict(name=name, status="inconclusive", detail="".join(traceback.format_exception_only(type(e), e)).strip(), trace=traceback.format_exc()[-1500:],
-                    functions=[], queries=0, nonvacuous=False, time_s=0)]
+                    functions=[], bounds="", queries=0, nonvacuous=False, time_s=0.0, solver_time_s=0.0, sample_query="", model=None)]
     # an obligation that did not come out as "holds" (wrong form, unrecognised form, or the translator
     # could not even find the function) and has a native test: the real code decides (see check)
     reg = _native_registry()
